@@ -153,6 +153,9 @@ class Workflow(metaclass=WorkflowMeta):
         # Populated by _validate(); empty until a successful validation runs.
         self._catch_error_handlers: dict[str, CatchErrorHandler] = {}
         self._handler_for_step: dict[str, str] = {}
+        # Routing must also be known to code that never calls run() on this
+        # instance first, e.g. replaying persisted ticks after a server restart.
+        self._build_catch_error_routing()
         self._events = _collect_events(step_configs)
         # Resource management
         self._resource_manager = resource_manager or ResourceManager()
